@@ -247,6 +247,45 @@ func (c *countingMessenger) SendMessage(string, []byte, int) error {
 	return nil
 }
 
+// slowMessenger: every send takes longer than the retry interval (a Lightning node that answers slowly: lnd's
+// client retries Unavailable for 30 s, sendcustommsg has no deadline), so a tick is pending whenever a send returns
+type slowMessenger struct {
+	sync.Mutex
+	started []time.Time
+	d       time.Duration
+}
+
+func (c *slowMessenger) SendMessage(string, []byte, int) error {
+	c.Lock()
+	c.started = append(c.started, time.Now())
+	c.Unlock()
+	time.Sleep(c.d)
+	return nil
+}
+
+// realSlowResendAfterStop: copies whose sending STARTED after RemoveSender had returned (the one in flight at that
+// moment is not counted)
+func realSlowResendAfterStop() int {
+	sm := &slowMessenger{d: 3 * time.Millisecond}
+	rm := messages.NewRedundantMessenger(sm, time.Millisecond)
+	mgr := messages.NewManager()
+	mgr.AddSender("x", rm)
+	rm.SendMessage("peer", []byte("m"), 1)
+	time.Sleep(8 * time.Millisecond)
+	mgr.RemoveSender("x")
+	stopped := time.Now()
+	time.Sleep(40 * time.Millisecond)
+	sm.Lock()
+	defer sm.Unlock()
+	n := 0
+	for _, t := range sm.started {
+		if t.After(stopped) {
+			n++
+		}
+	}
+	return n
+}
+
 func realResendAfterStop(waitBefore time.Duration) (before, after int) {
 	cm := &countingMessenger{}
 	rm := messages.NewRedundantMessenger(cm, 2*time.Millisecond)
@@ -397,6 +436,19 @@ func init() {
 			if after > 1 {
 				res.addFinding("C22/real-messenger/copies-after-stop", fmt.Sprintf("%d copies were sent after RemoveSender returned", after), fmt.Sprintf("interval 2ms, stop after %d ms", 1+i))
 			}
+		}
+		// sends slower than the interval: after the stop no NEW copy may be started (the copy in flight finishes)
+		worst := 0
+		for i := 0; i < 40; i++ {
+			k := realSlowResendAfterStop()
+			res.Evaluations++
+			res.Histogram[fmt.Sprintf("slow sends: copies started after stop = %d", k)]++
+			if k > worst {
+				worst = k
+			}
+		}
+		if worst > 0 {
+			res.addFinding("C22/real-messenger/new-copies-started-after-stop/slow-sends", fmt.Sprintf("with sends slower than the retry interval up to %d NEW copies were started after RemoveSender had returned (a pending tick and the stop are both ready and select picks at random)", worst), "interval 1 ms, each send 3 ms, stop after 8 ms, 40 trials")
 		}
 	}
 
